@@ -1,4 +1,5 @@
 import QModel.Atoms
+import QModel.Graph
 import QModel.Proto
 /-!
 Protocol handler for `QModel/Atoms.lean`.
@@ -13,6 +14,7 @@ idx    : Int list (`-` = empty)
 * `at.reins idx dm nk col*`  (first `nk` cols = atoms, rest = new_atoms; `dm` = default masses of new_atoms) → `ok col*` | `err E`
 * `at.rt idx dm col*`  (`t = a[idx]; del a[idx]; reinsert_atoms(a, t, idx)`)  → `ok col*` | `err E`
 * `mol n comps req default`  (comps = rows; req `N` | `I:k` | `P:lo:hi`; default `N` | Int list) → `ok labels` | `err E`
+* `molg n pairs req default`  (pairs = `-` or `i:j,i:j,…` bonded pairs, components computed by `componentsOf`; rest as `mol`)
 -/
 namespace RI
 
@@ -60,6 +62,13 @@ def parseReq (s : String) : Option ReqSize :=
   | ["P", lo, hi] => do pure (.between (← lo.toInt?) (← hi.toInt?))
   | _ => none
 
+def parsePairs (s : String) : Option (List (Nat × Nat)) :=
+  if s = "-" then some [] else
+    (s.splitOn ",").mapM fun t =>
+      match t.splitOn ":" with
+      | [a, b] => do pure ((← a.toNat?), (← b.toNat?))
+      | _ => none
+
 def handle : List String → String
   | ["ri.delete", rows, idx] =>
     match parseRows rows, Proto.natList idx with
@@ -103,6 +112,14 @@ def handle : List String → String
           (if dflt = "N" then some none else (Proto.intList dflt).map some) with
     | some n, some c, some r, some d =>
       match searchMolecules n c r d with
+      | .ok l => s!"ok {Proto.showInts l}"
+      | .error e => s!"err {e}"
+    | _, _, _, _ => "bad-op"
+  | ["molg", n, pairs, req, dflt] =>
+    match n.toNat?, parsePairs pairs, parseReq req,
+          (if dflt = "N" then some none else (Proto.intList dflt).map some) with
+    | some n, some p, some r, some d =>
+      match searchMoleculesG n p r d with
       | .ok l => s!"ok {Proto.showInts l}"
       | .error e => s!"err {e}"
     | _, _, _, _ => "bad-op"
